@@ -98,7 +98,11 @@ func (ex *Exec) mapCard(st *State, mt *types.Map, m Term) Term {
 		ex.d.axiom("card:"+fn, fmt.Sprintf("(assert (forall ((h %s)) (! (>= (%s h) 0) :pattern ((%s h)))))\n(assert (= (%s ((as const %s) false)) 0))\n(assert (forall ((h %s) (k %s)) (! (= (%s (store h k true)) (+ (%s h) (ite (select h k) 0 1))) :pattern ((%s (store h k true))))))",
 			as, fn, fn, fn, as, as, ks, fn, fn, fn))
 	}
-	return ite(eq(m, intLit(0)), intLit(0), app(SInt, fn, sel(has, m, arraySort(ks, SBool))))
+	card := ite(eq(m, intLit(0)), intLit(0), app(SInt, fn, sel(has, m, arraySort(ks, SBool))))
+	// a Go map that exists at run time has fewer than 2^62 entries (a fact about this map value,
+	// not an axiom about all key sets)
+	st.assume(le(card, intLit(4611686018427387904)))
+	return card
 }
 
 func (ex *Exec) lookup(st *State, in *ssa.Lookup) Value {
